@@ -45,6 +45,15 @@ pub mod ext_mpsc {
     pub assume_specification<T> [mpsc::SyncSender::<T>::try_send] (s: &mpsc::SyncSender<T>, t: T) -> (res: Result<(), mpsc::TrySendError<T>>)
         ensures res is Ok ==> w_sync_sent(s);
     /// ASSUMED: std::cmp::min on types whose Ord obeys its spec returns the smaller argument (the first on ties)
+    /// the queue a handle belongs to (ghost identity); ASSUMED: `channel()` / `sync_channel(n)` return the two ends of ONE
+    /// fresh queue
+    pub uninterp spec fn queue_of_rx<T>(r: &mpsc::Receiver<T>) -> int;
+    pub uninterp spec fn queue_of_tx<T>(s: &mpsc::Sender<T>) -> int;
+    pub uninterp spec fn queue_of_stx<T>(s: &mpsc::SyncSender<T>) -> int;
+    pub assume_specification<T> [mpsc::channel::<T>] () -> (r: (mpsc::Sender<T>, mpsc::Receiver<T>))
+        ensures queue_of_tx(&r.0) == queue_of_rx(&r.1);
+    pub assume_specification<T> [mpsc::sync_channel::<T>] (bound: usize) -> (r: (mpsc::SyncSender<T>, mpsc::Receiver<T>))
+        ensures queue_of_stx(&r.0) == queue_of_rx(&r.1);
     pub assume_specification<T: std::cmp::Ord + std::marker::Destruct> [std::cmp::min] (a: T, b: T) -> (r: T)
         ensures <T as vstd::std_specs::cmp::OrdSpec>::obeys_cmp_spec() ==> r == (if vstd::std_specs::cmp::OrdSpec::cmp_spec(&a, &b) is Greater { b } else { a });
 }
